@@ -42,6 +42,39 @@ func runC09(r *kit.Run) {
 	env := newEnv()
 	m := &Mutator{r: r, ValidatorWeight: c.Intn("valweight", 3)}
 	st := env.St
+	if c.Chance("contract-focus", 1, 2) {
+		// swarm: half of the runs concentrate on a few deployed contracts and slots
+		m.Hot = []common.Address{accounts[0], accounts[1]}
+		m.HotSlots = 1 + c.Intn("hot-slots", 2)
+		m.StorageWeight = 2 + c.Intn("storage-weight", 4)
+		for i, a := range m.Hot {
+			// deployment as evm.create does it (evm.go:338-380), in a block of its own
+			st.CreateAccount(a)
+			st.SetNonce(a, 1)
+			st.SetCode(a, codes[1+i])
+			if c.Chance("prefill-storage", 1, 2) {
+				st.SetState(a, common.BigToHash(big.NewInt(0)), common.BigToHash(big.NewInt(int64(1+c.Intn("base", 2)))))
+			}
+		}
+		root, vroot, sroot, err := st.Commit(true)
+		if err != nil {
+			r.Report("commit-error", "Commit of the deployment block: %v", err)
+			return
+		}
+		if c.Chance("reopen-after-deploy", 1, 2) {
+			for _, h := range []common.Hash{root, vroot, sroot} {
+				env.DB.TrieDB().Commit(h, false)
+			}
+			ns, err := state.New(root, vroot, sroot, env.DB)
+			if err != nil {
+				r.Report("reopen-error", "state.New after deployment: %v", err)
+				return
+			}
+			st, env.St = ns, ns
+		}
+		r.Logf("contract-focus: hot=%s,%s slots=%d storage-weight=%d", nm(m.Hot[0]), nm(m.Hot[1]), m.HotSlots, m.StorageWeight)
+		r.Probe("contract-focus-run")
+	}
 	nBlocks := 1 + c.Intn("blocks", 3)
 	for b := 0; b < nBlocks; b++ {
 		m.height = uint64(b + 1)
